@@ -25,8 +25,9 @@ class Livelock(BaseException):
 
 
 class World:
-    def __init__(self, history: List[Tuple[Tuple[int, ...], Optional[str], bool]], lag: bool = False) -> None:
+    def __init__(self, history: List[Tuple[Tuple[int, ...], Optional[str], bool]], lag: bool = False, boot: Any = None) -> None:
         self.history = history
+        self.boot = boot
         # lag=True models multiprocessing.Queue's feeder thread: what the manager itself puts while it is
         # processing (the ReloadOne expansion of a reload-all) becomes visible only at the next tick; what
         # signal handlers put during the sleep is visible when processing starts (observed with strace on
@@ -48,6 +49,10 @@ class World:
         # runs between two bytecodes of the main thread, a worker may die at any moment)
         self.calls = 0
         self.mid_now: Dict[int, List[Tuple[str, Any]]] = {}
+        # boot: [k, "die", slot] events before the first sleep - a worker that crashes while the manager is still
+        # starting the workers (import error in the worker, port in use)
+        for k, kind, arg in (boot or ()):
+            self.mid_now.setdefault(int(k), []).append((kind, arg))
         self.in_inject = False
         self.mid_sites: List[Tuple[str, str]] = []
 
@@ -266,9 +271,9 @@ class _CurProc:
 
 
 def run_history(workers: int, max_fails: int, history: List[Any], lag: bool = False, slow_exit: float = 0.0,
-                reload: bool = False) -> Dict[str, Any]:
+                reload: bool = False, boot: Any = None, mtpc: Any = None) -> Dict[str, Any]:
     """Run the real ProcessManager.__init__/start() against one history in the fake world."""
-    world = World(history, lag)
+    world = World(history, lag, boot)
     world.slow_exit = slow_exit
     FakeProcess.world = world
     FakeQueue.world = world
@@ -284,7 +289,8 @@ def run_history(workers: int, max_fails: int, history: List[Any], lag: bool = Fa
     out: Dict[str, Any] = {"returned": False, "ret": None, "crash": None, "blocked": False}
     try:
         # reload=True is what `taskiq worker --reload` sets (development mode): supervision itself must not differ
-        args = WorkerArgs(broker="b:b", modules=[], workers=workers, max_fails=max_fails, reload=reload)
+        # (max_tasks_per_child makes workers recycle themselves; it does not change what counts as an unexpected exit)
+        args = WorkerArgs(broker="b:b", modules=[], workers=workers, max_fails=max_fails, reload=reload, max_tasks_per_child=mtpc)
         mgr = pm.ProcessManager(args, worker_function=lambda args: None)
         try:
             out["ret"] = mgr.start()
@@ -307,6 +313,8 @@ def run_history(workers: int, max_fails: int, history: List[Any], lag: bool = Fa
             setattr(pm, k, v)
     out["trace"] = world.trace
     out["reload"] = reload
+    out["boot"] = boot
+    out["mtpc"] = mtpc
     out["ticks"] = world.tick
     out["deaths"] = [(t, p.name, p.pid, mid) for t, p, mid in world.deaths]
     out["world"] = world
@@ -358,7 +366,9 @@ def oracle_c17(out: Dict[str, Any], workers: int, max_fails: Optional[int] = Non
         i_death = next(i for i, e in enumerate(tr) if e[1] == "died" and e[3] == pid)
         if mid:
             seen_same_tick = any(e[1] == "is_alive" and e[3] == pid and e[4] is False and e[0] == t for e in tr[i_death:])
-            if not seen_same_tick:
+            if not seen_same_tick or t == 0:
+                # (before the first tick there is no health check: a worker that crashes while the workers are being
+                # started is found by the check at the end of tick 1 and replaced in tick 2)
                 deadline = t + 2
         if ret_tick is not None and ret_tick <= deadline:
             continue
@@ -397,8 +407,8 @@ def oracle_c18(out: Dict[str, Any], workers: int, max_fails: int, history: List[
         if e[1] == "tick":
             K_at_end_of_tick[e[0] - 1] = len(told)
             cur_tick = e[0]
-        elif e[1] == "is_alive" and e[4] is False and e[3] in died_pids:
-            told.add(e[3])  # (a process the manager itself stopped is not an unexpected exit)
+        elif e[1] == "is_alive" and e[4] is False and e[3] in died_pids and e[0] >= 1:
+            told.add(e[3])  # (a process the manager itself stopped is not an unexpected exit; the start-up wait is no health check)
         elif e[1] == "return":
             ret = e[2]
             ret_tick = e[0]
@@ -664,7 +674,9 @@ class ProcCheck(Check):
                         mids.append([rng.randint(1, 6 + 8 * w), kind, arg])
                     hist.append(base + (mids,))
                 lag = rng.random() < 0.5
-                out = run_history(w, mf, hist, lag, rng.choice([0.0, 0.0, 8.0]), reload=rng.random() < 0.25)
+                boot = [[rng.randint(1, 5 * w), "die", rng.randrange(w)] for _ in range(rng.choice([1, 1, 2]))] if rng.random() < 0.15 else None
+                out = run_history(w, mf, hist, lag, rng.choice([0.0, 0.0, 8.0]), reload=rng.random() < 0.25, boot=boot,
+                                  mtpc=rng.choice([None, None, 1, 10]))
                 self._account(cr, out, w, mf, hist)
                 cr.counters["midtick_histories"] += 1
                 for site, kind in out["world"].mid_sites:
@@ -687,7 +699,8 @@ class ProcCheck(Check):
                     else:
                         hist.append(rng.choice(alpha))
                 lag = rng.random() < 0.5
-                out = run_history(w, mf, hist, lag, rng.choice([0.0, 0.0, 3.0, 8.0, 30.0]), reload=rng.random() < 0.25)
+                out = run_history(w, mf, hist, lag, rng.choice([0.0, 0.0, 3.0, 8.0, 30.0]), reload=rng.random() < 0.25,
+                                  mtpc=rng.choice([None, None, 1, 10]))
                 self._account(cr, out, w, mf, hist)
                 cr.counters["random_histories"] += 1
                 cr.counters["lagged_queue_histories"] += 1 if lag else 0
@@ -706,10 +719,12 @@ class ProcCheck(Check):
             cr.counters["returned_" + str(out["ret"])] += 1
         if out.get("reload"):
             cr.counters["histories_in_reload_mode"] += 1
+        if out.get("boot"):
+            cr.counters["histories_with_boot_crash"] += 1
         vs = self.judge(out, w, mf, hist)
         for x in vs:
             x.detail = {"workers": w, "max_fails": mf, "queue_lag": bool(out["world"].lag), "slow_exit": out["world"].slow_exit,
-                        "reload_mode": bool(out.get("reload")), "history": [list(map(_j, h)) for h in played],
+                        "reload_mode": bool(out.get("reload")), "boot_events": out.get("boot"), "max_tasks_per_child": out.get("mtpc"), "history": [list(map(_j, h)) for h in played],
                         "trace": [list(map(_j, e)) for e in out["trace"][:200]]}
         cr.violations += vs
         if cr.trace is None and any(h[0] for h in played) and len(out["trace"]) < 60:
